@@ -7,7 +7,7 @@ use crate::Emitter;
 
 pub fn generate(thorough: bool, seed: u64, em: &mut Emitter) {
     let mut r = Rng::new(seed ^ 0xC09);
-    let n = if thorough { 10_000 } else { 800 };
+    let n = if thorough { 6_000 } else { 800 };
     for i in 0..n {
         let mut rc = r.fork();
         let r = &mut rc;
